@@ -892,6 +892,9 @@ func (c *Ctx) errorsGate(instance string, f *Func, what string, effect func(Poin
 			continue
 		}
 		if ok, how := errDiscipline(s); !ok {
+			if obj, bound := resultVar(s, isErrorType); bound && usedInCondition(f, s, obj) {
+				continue // classified by a predicate (errors.As, IsFatal, ...): not dropped, polarity unknown
+			}
 			if why := tolerated(s); why != "" {
 				c.add(Result{Instance: inst, Verdict: Discharged, Sites: []string{s.Pos()}, Detail: "tolerated fall-through: " + why})
 				continue
@@ -930,4 +933,19 @@ func inlineNilEdges(g *Graph, s Site) map[Edge]bool {
 		}
 		return (be.Op == token.EQL) == a.Val
 	})
+}
+
+// usedInCondition reports whether obj, as bound at site s, is an operand of a
+// branch condition before being overwritten.
+func usedInCondition(f *Func, s Site, obj types.Object) bool {
+	info := f.Info()
+	g := f.Graph()
+	used := false
+	g.ReachAll(s.After(), Cut{Stop: func(_ Point, n ast.Node) bool { return n != nil && assignsTo(info, n, obj) }}, func(p Point, n ast.Node) bool {
+		if n != nil && Cond(p.B) == n && usesObj(info, n, obj) {
+			used = true
+		}
+		return false
+	})
+	return used
 }
